@@ -44,6 +44,24 @@ def _val(v):
     return [str(v)]
 
 
+def canon_node(n, backend="docutils"):
+    """One real docutils node -> canonical tree."""
+    return canon_doc(n, backend)
+
+
+def enc_canon(t, out):
+    """canonical tree -> the wire syntax of a node (allocation number 0)"""
+    if t[0] == "X":
+        out += ["X", "0", enc_str(t[1])]
+        return
+    out += ["E", "0", enc_str(t[1]), str(len(t[2]))]
+    for k, vs in t[2].items():
+        out += [enc_str(k), str(len(vs))] + [enc_str(v) for v in vs]
+    out.append(str(len(t[3])))
+    for c in t[3]:
+        enc_canon(c, out)
+
+
 def canon_doc(doc, backend="docutils"):
     """Real docutils document -> canonical tree."""
     from docutils import nodes
@@ -118,6 +136,22 @@ def enc_tables(tb):
                 out.append(str(len(val)))
                 for cls, v in val:
                     out += [enc_strs(cls), enc_str(v)]
+        elif name == "split1":
+            out += ["split1", enc_str(key), enc_strs(val)]
+        elif name == "acc":
+            out += ["acc", enc_str(key), "1" if val else "0"]
+        elif name == "dj":
+            out += ["dj", enc_str(key)] + (["~"] if val is None else ["D", enc_str(val)])
+        elif name == "dyn":
+            out += ["dyn", enc_strs(list(key))]
+            if val is None:
+                out.append("~")
+            else:
+                nodes, wtags = val
+                out += ["N", str(len(nodes))]
+                for n in nodes:
+                    enc_canon(n, out)
+                out.append(enc_strs(wtags))
         elif name == "p2r":
             out += ["p2r", enc_str(key)] + (["~"] if val is None else ["D", enc_str(val)])
         elif name == "p2d":
@@ -164,9 +198,36 @@ def static_config(case):
 
 # ---------------------------------------------------------------- oracle answers (the real library functions)
 
-def oracle_value(name, key, backend):
+def _abs_path(env, key):
+    try:
+        return env.relfn2path(key, "index")[1]
+    except ValueError:
+        return None
+
+
+def oracle_value(name, key, backend, dyn=None):
     if name == "split":
         return key.split()
+    if name == "split1":
+        return key.split(maxsplit=1)
+    if name == "dyn":
+        # the recorded result of the real run (gen.c02_lib.record_dynamic); unknown key = not answerable
+        rec = (dyn or {}).get(tuple(key))
+        if rec is None:
+            return None
+        nodes, wtext = rec
+        return (nodes, MYST_TAG.findall(wtext))
+    if name == "acc":
+        import os
+        from gen.c02_lib import SphinxDriver
+        p = _abs_path(SphinxDriver.get().app.env, key)
+        return bool(p is not None and os.access(p, os.R_OK))
+    if name == "dj":
+        from sphinx.util import docname_join
+        from gen.c02_lib import SphinxDriver
+        env = SphinxDriver.get().app.env
+        d = docname_join("index", key)
+        return d if d in env.found_docs else None
     if name == "strip":
         return key.strip()
     if name == "norm":
@@ -196,16 +257,16 @@ def oracle_value(name, key, backend):
     if name == "p2r":
         from gen.c02_lib import SphinxDriver
         env = SphinxDriver.get().app.env
-        _, p = env.relfn2path(key, "index")
-        return env.path2doc(p) or None
+        p = _abs_path(env, key)
+        return (env.path2doc(p) or None) if p else None
     if name == "p2d":
         from pathlib import Path
         from gen.c02_lib import SphinxDriver
         env = SphinxDriver.get().app.env
-        _, p = env.relfn2path(key, "index")
+        p = _abs_path(env, key)
         try:
-            isf = Path(p).is_file()
-        except OSError:
+            isf = p is not None and Path(p).is_file()
+        except (OSError, ValueError):
             isf = False
         if not isf:
             return None
@@ -218,6 +279,8 @@ def parse_miss(item):
     if name == "lex":
         l, _, t = rest.partition(":")
         return name, (dec_str(l), dec_str(t))
+    if name == "dyn":
+        return name, tuple(dec_strs(rest))
     return name, dec_str(rest)
 
 
@@ -273,7 +336,10 @@ def model_render(pid, cmd, items, max_rounds=12):
     tables = [dict() for _ in range(n)]
     fixed = [None] * n
     toks = [None] * n
-    for i, (case, root, dup) in enumerate(items):
+    dyns = [None] * n
+    for i, it in enumerate(items):
+        case, root, dup = it[:3]
+        dyns[i] = it[3] if len(it) > 3 else None
         fixed[i] = cfg_fields(case, dup)
         toks[i] = enc_tokens(root)
     replies = [None] * n
@@ -290,7 +356,7 @@ def model_render(pid, cmd, items, max_rounds=12):
                 be = "sphinx" if fixed[i][0] == "S" else "docutils"
                 for item in o[6:].split(" "):
                     name, key = parse_miss(item)
-                    tables[i][(name, key)] = oracle_value(name, key, be)
+                    tables[i][(name, key)] = oracle_value(name, key, be, dyns[i])
                     n_or += 1
                 nxt.append(i)
             else:
@@ -345,7 +411,7 @@ def impl_parse(case, stage="parse"):
     from gen import c02_lib as L
     text, mode, exts = case["text"], case.get("mode", "myst"), list(case.get("exts") or ())
     kw = dict(case.get("kw") or {})
-    with L.capture_tokens() as cap:
+    with L.capture_tokens() as cap, L.record_dynamic(canon_node) as rec:
         if case.get("backend") == "sphinx":
             cfg = L.make_config(mode, exts, **kw)
             doc, w = L.SphinxDriver.get().parse(text, cfg)
@@ -357,7 +423,19 @@ def impl_parse(case, stage="parse"):
                 w = L.SphinxDriver.get().warnings_text()
             else:
                 w = doc.settings.warning_stream.getvalue()
+    impl_parse.last_dynamic = rec.records
     return doc, w, cap.tokens
+
+
+DYNAMIC_TYPES = {"colon_fence", "myst_role", "substitution_inline", "substitution_block", "front_matter"}
+
+
+def has_dynamic(root):
+    """the token tree contains dynamic syntax (the model will ask the O_dyn oracle)"""
+    for n in root.walk():
+        if n.type in DYNAMIC_TYPES or (n.type == "fence" and (n.info or "").strip().startswith("{")):
+            return True
+    return False
 
 
 def _strip_map(d):
@@ -394,7 +472,14 @@ def statement_check(pid, cases):
             root, toks, env = L.token_tree(cfg, case["text"])
         except Exception:
             continue
-        items.append((case, root, len(env.get("duplicate_refs", []))))
+        dyn = None
+        if has_dynamic(root):
+            try:
+                impl_parse(case, "parse")
+                dyn = impl_parse.last_dynamic
+            except Exception:
+                dyn = None
+        items.append((case, root, len(env.get("duplicate_refs", [])), dyn))
         idx.append(i)
     replies, _ = model_render(pid, "skel", items) if items else ([], 0)
     tables = getattr(model_render, "last_tables", [])
@@ -431,7 +516,7 @@ def correspond(pid, cases, stage="parse", check_tokens=False):
         except Exception as e:
             res[i] = {"status": "impl-exception", "where": "render", "exc": type(e).__name__, "msg": str(e)[:200]}
             continue
-        items.append((case, root, len(env.get("duplicate_refs", []))))
+        items.append((case, root, len(env.get("duplicate_refs", [])), impl_parse.last_dynamic))
         impl.append((doc, w, seen, toks, root))
         idx.append(i)
     cmd = "render" if stage == "parse" else "xform"
